@@ -11,18 +11,20 @@ N1, N2, N3 = f'len({SE})', f'len({TR})', f'len({TI})'
 
 # edits(): as in sequences.py plus the abstract range of the freshly built Remove / Insert edits
 E = REG.contracts['FixedLengthSequenceEdit.edits']
-TAIL_R = (f'forall(i, 0, {N2}, {{Y}}[{N1} + i].lb == size({TR}[i]) + 1 and {{Y}}[{N1} + i].ub == size({TR}[i]) + 1)')
-TAIL_I = (f'forall(i, 0, {N3}, {{Y}}[{N1} + {N2} + i].lb == size({TI}[i]) + 1 and {{Y}}[{N1} + {N2} + i].ub == size({TI}[i]) + 1)')
+# (stated with the listing index itself as the bound variable: the instantiation trigger is then Y[i], which matches any read Y[j])
+TAIL_R = (f'forall(i, {N1}, {N1} + {N2}, {{Y}}[i].lb == size({TR}[i - {N1}]) + 1 and {{Y}}[i].ub == size({TR}[i - {N1}]) + 1)')
+TAIL_I = (f'forall(i, {N1} + {N2}, {N1} + {N2} + {N3}, {{Y}}[i].lb == size({TI}[i - {N1} - {N2}]) + 1 '
+          f'and {{Y}}[i].ub == size({TI}[i - {N1} - {N2}]) + 1)')
 REG.contract(
     'FixedLengthSequenceEdit.edits', params=E.params, yields='ref[Edit]', allocates=True,
     ensures=list(E.ensures) + [TAIL_R.format(Y='result'), TAIL_I.format(Y='result')],
     loops={
         0: LoopSpec(index='j', invariant=list(E.loops[0].invariant) + [
-            f'forall(i, 0, j, yielded[{N1} + i].lb == size({TR}[i]) + 1 and yielded[{N1} + i].ub == size({TR}[i]) + 1)']),
+            f'forall(i, {N1}, {N1} + j, yielded[i].lb == size({TR}[i - {N1}]) + 1 and yielded[i].ub == size({TR}[i - {N1}]) + 1)']),
         1: LoopSpec(index='j', invariant=list(E.loops[1].invariant) + [
             TAIL_R.format(Y='yielded'),
-            f'forall(i, 0, j, yielded[{N1} + {N2} + i].lb == size({TI}[i]) + 1 '
-            f'and yielded[{N1} + {N2} + i].ub == size({TI}[i]) + 1)']),
+            f'forall(i, {N1} + {N2}, {N1} + {N2} + j, yielded[i].lb == size({TI}[i - {N1} - {N2}]) + 1 '
+            f'and yielded[i].ub == size({TI}[i - {N1} - {N2}]) + 1)']),
     })
 
 
